@@ -26,7 +26,13 @@ pub struct LuaParser<'a> {
     ternary_depth: usize,
     paren_depth: usize,
     ternary_paren_depth: usize,
+    nesting_level: usize,
 }
+
+/// Limit on nested expressions and statements, the same as LUAI_MAXCCALLS of the reference
+/// implementation ("chunk has too many syntax levels"): deeper input gets a syntax error instead
+/// of overflowing the stack of the parsing thread.
+pub(crate) const MAX_NESTING_LEVEL: usize = 200;
 
 impl MarkerEventContainer for LuaParser<'_> {
     fn get_mark_level(&self) -> usize {
@@ -67,6 +73,7 @@ impl<'a> LuaParser<'a> {
             ternary_depth: 0,
             paren_depth: 0,
             ternary_paren_depth: 0,
+            nesting_level: 0,
         };
 
         parse_chunk(&mut parser);
@@ -115,6 +122,7 @@ impl<'a> LuaParser<'a> {
             ternary_depth: 0,
             paren_depth: 0,
             ternary_paren_depth: 0,
+            nesting_level: 0,
         };
 
         parse_chunk(&mut parser);
@@ -260,6 +268,26 @@ impl<'a> LuaParser<'a> {
         } else {
             self.tokens[index].kind
         }
+    }
+
+    /// Enters one level of syntactic nesting. Returns `false` and reports a syntax error
+    /// when the input is nested deeper than `MAX_NESTING_LEVEL`.
+    pub(crate) fn enter_level(&mut self) -> bool {
+        if self.nesting_level >= MAX_NESTING_LEVEL {
+            let range = self.current_token_range();
+            self.push_error(LuaParseError::syntax_error_from(
+                &t!("chunk has too many syntax levels"),
+                range,
+            ));
+            return false;
+        }
+
+        self.nesting_level += 1;
+        true
+    }
+
+    pub(crate) fn leave_level(&mut self) {
+        self.nesting_level -= 1;
     }
 
     pub fn enter_ternary(&mut self) {
@@ -506,6 +534,7 @@ mod tests {
             ternary_depth: 0,
             paren_depth: 0,
             ternary_paren_depth: 0,
+            nesting_level: 0,
         };
         parser.init();
 
